@@ -700,8 +700,26 @@ class _SubtypeDistanceVisitor(TypeVisitor[int | None]):
     def visit_any_type(self, supertype: AnyType) -> int:
         return self.any_distance
 
-    def visit_none_type(self, supertype: NoneType) -> None:
-        return None
+    def visit_none_type(self, supertype: NoneType) -> int | None:
+        if isinstance(self.subtype, NoneType):
+            return 0
+        return self._union_subtype_distance(supertype)
+
+    def _union_subtype_distance(self, supertype: ProperType) -> int | None:
+        """The distance to a union subtype is the smallest distance to one of its items.
+
+        Args:
+            supertype: The supertype to calculate the distance to.
+
+        Returns:
+            The smallest defined distance, or None if the subtype is not a union or no
+            item is connected.
+        """
+        if not isinstance(self.subtype, UnionType):
+            return None
+        distances = [self.graph.subtype_distance(supertype, elem) for elem in self.subtype.items]
+        valid_distances = [dist for dist in distances if dist is not None]
+        return min(valid_distances) if valid_distances else None
 
     def visit_instance(self, supertype: Instance) -> int | None:
         """Calculate the distance between two instances.
@@ -764,7 +782,7 @@ class _SubtypeDistanceVisitor(TypeVisitor[int | None]):
                 return None
             return sum(distances)  # type: ignore[arg-type]
 
-        return None
+        return self._union_subtype_distance(supertype)
 
     def visit_union_type(self, supertype: UnionType) -> int | None:
         """Calculate the distance between two union types.
